@@ -214,8 +214,22 @@ pub struct Drain<'a, K, V, S> {
 
 impl<'a, K, V, S> Drain<'a, K, V, S> {
     pub(crate) fn new(cache: &'a mut LruCache<K, V, S>) -> Drain<'a, K, V, S> {
+        let iterator = TakingIterator::new(cache);
+
+        // Set the cache as empty right away. The entries remain in the table's
+        // memory, from where the iterator moves them out, but the cache no
+        // longer lists them. If the Drain is leaked (e.g. by mem::forget), the
+        // remaining entries are leaked too, but none of them can be dropped a
+        // second time by the cache.
+
+        cache.seal.get_mut().next = cache.seal;
+        cache.seal.get_mut().prev = cache.seal;
+
+        cache.current_size = 0;
+        cache.table.clear_no_drop();
+
         Drain {
-            iterator: TakingIterator::new(cache),
+            iterator,
             cache
         }
     }
